@@ -153,6 +153,14 @@ def small_opt_program(r):
     elif x < 0.7:
         objs = r.sample(['OMakespan', 'OFlowtime', 'OPriorities', 'OGreatestStart'], 2)   # same direction (minimise)
     iid = 50
+    if not objs and r.random() < 0.6:
+        # a user indicator with declared bounds; with start = 0 (the usual first model) it sits on its upper bound
+        hz = terms.zval(prog[0][1][1])
+        k1 = prog[1][2]
+        d1 = terms.zval(k1[1]) if k1[0] == 'KFixed' else (0 if k1[0] == 'KZero' else 1)
+        prog.append(('ONewIndicator', terms.N(40), ('IExpr', ('TSub', ('TC', terms.Z(hz)), ('TV', ('VEnd', terms.N(1))))),
+                     terms.Some(terms.P(terms.Z(0), terms.Z(hz - d1)))))
+        prog.append(('ONewObjective', (r.choice(['OMinIndicator', 'OMinIndicator', 'OMaxIndicator']), terms.N(40), terms.Z(1)), terms.N(41)))
     for o in objs:
         prog.append(('ONewObjective', (o,) if o in ('OMakespan', 'OPriorities', 'OStartEarliest') else (o, None), terms.N(iid)))
         iid += 1
@@ -261,6 +269,15 @@ def observe_setup(args):
                     checks = [ev for ev in sp.LOG if ev[0] == 'check']
                     last = checks[-1][2] if checks else None
                     rec['answers'] = [ev[2] for ev in checks]
+                    # the same object asked again (the options must not leave anything behind)
+                    if sol and c.get('optimize_priority', 'pareto') != 'pareto' or (sol and not isinstance(s, z3.Optimize)):
+                        mdl1 = solver._model
+                        with contextlib.redirect_stdout(io.StringIO()), warnings.catch_warnings():
+                            warnings.simplefilter('ignore')
+                            sol2 = solver.solve()
+                        checks2 = [ev for ev in sp.LOG if ev[0] == 'check']
+                        rec['second'] = 'sat' if sol2 else ('unknown' if checks2 and checks2[-1][2] == 'unknown' else 'unsat')
+                        solver._model = mdl1
                     if sol:
                         mdl = solver._model
                         vals_i, vals_b = {}, {}
@@ -282,7 +299,9 @@ def observe_setup(args):
                             tgt = list(im.pb.objectives.values())[0]._target
                             rec['objective_value'] = mdl.eval(tgt, model_completion=True).as_long()
                             # finished = the incremental loop ended on unsat, or z3.Optimize answered sat
-                            rec['finished'] = (last == 'unsat') if not isinstance(s, z3.Optimize) else True
+                            # no max_iter and a generous max_time: the loop ends on unsat or on a stop at the declared bound,
+                            # in both cases the solver announces an optimum (the generated bounds are true bounds)
+                            rec['finished'] = (last in ('unsat', 'sat')) if not isinstance(s, z3.Optimize) else True
                         elif len(im.pb.objectives) > 1:
                             ws = sum(o2.weight * mdl.eval(o2._target, model_completion=True).as_long() for o2 in im.pb.objectives.values())
                             rec['weighted_value'] = ws
@@ -586,6 +605,9 @@ def cross_config(prop, res):
     recs = [rec for rec in res['per_cfg'] if rec.get('verdict') in ('sat', 'unsat')]
     if len({rec['verdict'] for rec in recs}) > 1:
         out.append(('verdicts-differ', None, [(rec['cfg'], rec['verdict']) for rec in recs]))
+    for rec in recs:
+        if rec['verdict'] == 'sat' and rec.get('second') == 'unsat':
+            out.append(('second-solve-infeasible', rec['cfg'], 'solve() again on the same object reports no solution'))
     vals = [(rec['cfg'], rec['objective_value']) for rec in recs if rec.get('finished') and 'objective_value' in rec]
     if len({v for _, v in vals}) > 1:
         out.append(('optimum-differs', None, vals))
